@@ -1,5 +1,5 @@
 (* TimelineProofs.v — lemmas about Model/Timeline.v (GenerateTimeline / PopulateTimeline). *)
-From Pyro Require Import Model.Base Model.Segment Model.Timeline Proofs.SegStruct.
+From Pyro Require Import Model.Base Model.Segment Model.Timeline Proofs.SegmentProofs Proofs.SegStruct.
 From Coq Require Import ZifyN ZifyNat ZifyBool Lia Sorted.
 Local Open Scope Z_scope.
 
@@ -115,4 +115,86 @@ Proof.
   induction segs as [|s segs IH]; intros tl; cbn zeta; [repeat split|]. cbn [fold_left].
   destruct (IH (tl_populate s tl)) as (H1 & H2 & H3 & H4). cbn zeta in *.
   destruct (tl_populate_shape s tl) as (G1 & G2 & G3). rewrite H1, H2, H3, H4, G1, G2, G3, tl_populate_length. repeat split.
+Qed.
+
+(* ------------------------------------------------------------------------------------------ *)
+(* 10 s buckets (tl_lvl = 0): the timeline is assembled from the 10 s nodes of the segment tree      *)
+
+(* the level-0 nodes (slot, sample counter), left to right *)
+Fixpoint leaves (lvl : nat) (n : snode) {struct lvl} : list (Z * N) :=
+  match lvl with
+  | O => [(sn_time n, sn_samples n)]
+  | S l => flat_map (fun o => match o with Some c => leaves l c | None => [] end) (sn_ch n)
+  end.
+
+Definition bump_leaf (a b : Z) (bf : list N) (ts : Z * N) : list N :=
+  if (a <=? fst ts) && (fst ts <? b) then bump_range (fst ts - a) (fst ts - a + 1) (snd ts) 0 bf else bf.
+
+Lemma is_outside_spec t w a b : 0 < w -> a < b ->
+  is_outside (relationship t (t + w) a b) = true <-> (t + w <= a \/ b <= t).
+Proof.
+  intros Hw Hab. pose proof (rel_spec t (t + w) a b ltac:(lia) Hab) as H.
+  destruct (relationship t (t + w) a b); cbn [is_outside]; split; try discriminate; try tauto; intros; lia.
+Qed.
+
+Lemma leaves_bounds : forall lvl n, wf lvl n -> Forall (fun ts => sn_time n <= fst ts < sn_time n + pow10 lvl) (leaves lvl n).
+Proof.
+  induction lvl as [|l IH]; intros [t p s w ch] Hwf; cbn [leaves sn_time sn_samples sn_ch].
+  - constructor; [|constructor]. cbn [fst]. rewrite pow10_0. lia.
+  - cbn [wf] in Hwf. destruct Hwf as (_ & Hlen & Hslots). apply Forall_forall. intros ts Hts.
+    apply in_flat_map in Hts. destruct Hts as ([c|] & Hc & Hin); [|destruct Hin].
+    pose proof (IH c (slots_In _ _ _ _ _ Hslots Hc)) as G. rewrite Forall_forall in G. specialize (G ts Hin).
+    assert (B : t <= sn_time c /\ sn_time c + pow10 l <= t + 10 * pow10 l).
+    { clear -Hslots Hc Hlen. pose proof (pow10_pos l) as Hp.
+      assert (forall ch t0, slots (wf l) (pow10 l) t0 ch -> In (Some c) ch ->
+                t0 <= sn_time c /\ sn_time c + pow10 l <= t0 + Z.of_nat (length ch) * pow10 l) as X.
+      { induction ch0 as [|o ch0 IHc]; intros t0 Hs Hin; [destruct Hin|]. cbn [slots] in Hs. destruct Hs as [Ho Hr].
+        cbn [length]. destruct Hin as [->|Hin]; [destruct Ho; nia|]. specialize (IHc _ Hr Hin). nia. }
+      specialize (X ch t Hslots Hc). rewrite Hlen in X. lia. }
+    rewrite pow10_S. lia.
+Qed.
+
+Lemma fold_bump_outside a b l : forall bf, Forall (fun ts => ~ (a <= fst ts < b)) l -> fold_left (bump_leaf a b) l bf = bf.
+Proof.
+  induction l as [|ts l IH]; intros bf H; [reflexivity|]. inversion H as [|? ? H1 H2]; subst. cbn [fold_left].
+  unfold bump_leaf at 2. replace ((a <=? fst ts) && (fst ts <? b)) with false by lia. apply IH, H2.
+Qed.
+
+(* C13_entries, structural half: with 10 s buckets, populating from a well-formed segment tree is bumping,
+   for every 10 s node inside the range, the entry of its slot by the node's sample counter *)
+Lemma populate_leaves : forall lvl a b n buf, a < b -> wf lvl n ->
+  tl_populate_node lvl a b 0 n buf = fold_left (bump_leaf a b) (leaves lvl n) buf.
+Proof.
+  induction lvl as [|l IH]; intros a b [t p s w ch] buf Hab Hwf.
+  - cbn [tl_populate_node leaves sn_time sn_samples fold_left]. unfold bump_leaf. cbn [fst snd].
+    pose proof (is_outside_spec t (pow10 0) a b (pow10_pos 0) Hab) as Ho. rewrite pow10_0 in *.
+    destruct (is_outside (relationship t (t + 1) a b)) eqn:E.
+    + replace ((a <=? t) && (t <? b)) with false; [reflexivity|]. destruct Ho as [Ho _]. specialize (Ho eq_refl). lia.
+    + replace ((a <=? t) && (t <? b)) with true.
+      * cbn [Nat.ltb Nat.leb]. rewrite !Z.quot_1_r. reflexivity.
+      * symmetry. apply andb_true_iff. destruct ((a <=? t) && (t <? b)) eqn:E2; [apply andb_true_iff in E2; exact E2|].
+        exfalso. assert (t + 1 <= a \/ b <= t) as X by lia. apply Ho in X. discriminate.
+  - cbn [tl_populate_node]. pose proof (leaves_bounds (S l) _ Hwf) as HB. cbn [sn_time] in HB.
+    pose proof (is_outside_spec t (pow10 (S l)) a b (pow10_pos (S l)) Hab) as Ho.
+    destruct (is_outside (relationship t (t + pow10 (S l)) a b)) eqn:E.
+    + symmetry. apply fold_bump_outside. destruct Ho as [Ho _]. specialize (Ho eq_refl).
+      eapply Forall_impl; [|exact HB]. intros ts H. cbn beta in *. lia.
+    + cbn [wf] in Hwf. destruct Hwf as (_ & Hlen & Hslots). rewrite Hlen. cbn [Nat.eqb negb Nat.leb andb].
+      cbn [leaves sn_ch]. clear HB Ho E Hlen. revert buf t Hslots. induction ch as [|o ch IHch]; intros buf t0 Hslots; [reflexivity|].
+      cbn [fold_left flat_map]. rewrite fold_left_app. cbn [slots] in Hslots. destruct Hslots as [Ho Hr].
+      destruct o as [c|].
+      * destruct Ho as [_ Hc]. rewrite (IH a b c buf Hab Hc). apply (IHch _ _ Hr).
+      * cbn [fold_left]. apply (IHch _ _ Hr).
+Qed.
+
+Lemma bump_range_nth i smp : forall buf idx k, (k < length buf)%nat ->
+  nth k (bump_range i (i + 1) smp idx buf) 0%N =
+  if idx + Z.of_nat k =? i then ((if (nth k buf 0 =? 0)%N then 1 else nth k buf 0) + smp)%N else nth k buf 0%N.
+Proof.
+  induction buf as [|x buf IH]; intros idx k Hk; cbn [length] in Hk; [lia|]. cbn [bump_range]. destruct k as [|k].
+  - cbn [nth]. replace (idx + Z.of_nat 0) with idx by lia.
+    destruct (Z.eqb_spec idx i) as [->|Hne].
+    + replace ((i <=? i) && (i <? i + 1)) with true by lia. reflexivity.
+    + replace ((i <=? idx) && (idx <? i + 1)) with false by lia. reflexivity.
+  - cbn [nth]. rewrite IH by lia. replace (idx + 1 + Z.of_nat k) with (idx + Z.of_nat (S k)) by lia. reflexivity.
 Qed.
